@@ -21,7 +21,8 @@ Record c06_case := {
   q_embs : list nat;              (* extension factories whose embedded pointer joins the matrix *)
   q_res : list nat;               (* observed: cell index of each operation's result *)
   q_is : list (list nat);         (* observed errors.Is matrix: 0 false, 1 true, 2 panic *)
-  q_extract : list (option nat) }.  (* observed ExtractFactoryReference per cell (None = nil) *)
+  q_extract : list (option nat);  (* observed ExtractFactoryReference per cell (None = nil) *)
+  q_extract_f : list nat }.       (* ... of every foreign value: 0 nil, 1 non-nil, 2 panic, 3 no return *)
 
 Definition root_cell_of (r : c06_root) : cell :=
   mkC (mkG (r_name r) (r_msg r) (r_src r) [] None VNil VNil [] (r_isfac r)) (r_ext r).
@@ -88,6 +89,40 @@ Definition c06_model (c : c06_case) : option (list nat * list (list nat) * list 
   end.
 
 (* ---- spec ---- *)
+(* foreign errors whose own Is / Unwrap methods panic, loop or answer arbitrarily (dynamic type ids
+   100..199): errors.Is with such a SOURCE runs those methods before gerror is involved at all,
+   so the harness does not evaluate these rows (observation 7).  As Convert arguments and as
+   errors.Is targets they are ordinary foreign errors: nothing may call their methods. *)
+Definition hostile_src (fs : list val) (x : vref) : bool :=
+  match x with
+  | RF k => match nth k fs VNil with VF t _ _ _ => N.leb 100 t && N.ltb t 200 | _ => false end
+  | _ => false
+  end.
+
+(* both sides foreign (or nil): errors.Is runs no gerror code at all; whatever the stdlib does
+   there (it panics on two values of one deeply non-comparable dynamic type) is not one of "these
+   calls" — only the agreement with the model is checked *)
+(* typed-nil pointers of gerror types (dynamic type ids 50 and 104) are foreign VALUES in the model
+   but their methods are gerror code *)
+Definition typed_nil_gerror (fs : list val) (x : vref) : bool :=
+  match x with
+  | RF k => match nth k fs VNil with VF t _ _ _ => N.eqb t 50 || N.eqb t 104 | _ => false end
+  | _ => false
+  end.
+
+(* a foreign SOURCE that wraps a gerror value reaches that value's Is method through Unwrap *)
+Definition wraps_gerror (fs : list val) (x : vref) : bool :=
+  match x with
+  | RF k => match wrapped_cell (nth k fs VNil) with Some _ => true | None => false end
+  | _ => false
+  end.
+
+Definition no_gerror_side (fs : list val) (x y : vref) : bool :=
+  match ref_cell x, ref_cell y with
+  | None, None => negb (typed_nil_gerror fs x) && negb (typed_nil_gerror fs y) && negb (wraps_gerror fs x)
+  | _, _ => false
+  end.
+
 Definition is_ok (spec : option bool) (obs : nat) : bool :=
   match obs with
   | 0 => match spec with Some true => false | _ => true end
@@ -99,7 +134,11 @@ Fixpoint rows_ok (infos : list binfo) (fs : list val) (refs : list vref) (x : vr
          (row : list nat) : bool :=
   match refs, row with
   | [], [] => true
-  | y :: refs', o :: row' => is_ok (spec_is infos fs x y) o && rows_ok infos fs refs' x row'
+  | y :: refs', o :: row' =>
+      (if hostile_src fs x then Nat.eqb o 7
+       else if no_gerror_side fs x y then Nat.leb o 2
+       else is_ok (spec_is infos fs x y) o)
+      && rows_ok infos fs refs' x row'
   | _, _ => false
   end.
 
@@ -133,7 +172,10 @@ Definition c06_spec_ok (c : c06_case) : bool :=
   res_ok exp (q_res c)
   && matrix_ok infos (q_foreign c) refs refs (q_is c)
   && Nat.eqb (length (q_extract c)) (length infos)
-  && extract_ok infos 0 (q_extract c).
+  && extract_ok infos 0 (q_extract c)
+  (* ExtractFactoryReference of a value that is no gerror error: nil, no panic *)
+  && Nat.eqb (length (q_extract_f c)) (length (q_foreign c))
+  && forallb (Nat.eqb 0) (q_extract_f c).
 
 Definition c06_domain (c : c06_case) : bool :=
   forallb (fun r => match r_ext r with Some _ => r_isfac r | None => true end) (q_roots c)
@@ -146,7 +188,8 @@ Fixpoint rows_mis (infos : list binfo) (fs : list val) (refs : list vref) (x : v
   match refs, row, mrow with
   | [], [], [] => false
   | y :: refs', o :: row', m :: mrow' =>
-      (is_ok (spec_is infos fs x y) o && negb (Nat.eqb o m)) || rows_mis infos fs refs' x row' mrow'
+      (negb (hostile_src fs x) && (no_gerror_side fs x y || is_ok (spec_is infos fs x y) o) && negb (Nat.eqb o m))
+      || rows_mis infos fs refs' x row' mrow'
   | _, _, _ => true
   end.
 
